@@ -1015,7 +1015,7 @@ func serverSpecs(r *hk.Run) []string {
 
 // Run is the generator.
 func Run(r *hk.Run) {
-	r.Res.Rule = "share handler: per generated store (public key, raw leaves, bytes, file, static sets incl. builder-made mergeSets, directory, a claim that mentions a ref, 2-3 share claims: transitive or not, live/expired/never expiring, of directories, files, sets, shares, phantoms, searches) EVERY chain of length 1..L over all stored blobs plus one unstored ref is requested with GET (L=4 quick, 5 thorough), every chain up to 3 with HEAD and assemble=1, every chain up to 2 with all 9 methods, malformed refs at every position; then the first share is deleted, undeleted and deleted again with all chains up to 3 re-requested after each step. servers: serverinit.Load+InstallHandlers of generated high- and low-level configurations (storage x index x auth mode x share prefix x hand-edited prefixes incl. internal ones); every prefix x 9 methods x 9-22 sub-paths without credentials, GET/HEAD with credentials; every fixed /debug endpoint. distinct = distinct (store, request) whose chain starts at a stored share claim, plus distinct (configuration, prefix, method, sub-path)"
+	r.Res.Rule = "share handler: per generated store (public key, raw leaves, bytes, file, static sets incl. builder-made mergeSets, directory, a claim that mentions a ref, 2-3 share claims: transitive or not, live/expired/never expiring, of directories, files, sets, shares, phantoms, searches) EVERY chain of length 1..L over all stored blobs plus one unstored ref is requested with GET (L=4 quick, 5 thorough), every chain up to 3 with HEAD and assemble=1, every chain up to 2 with all 9 methods, malformed refs at every position, every link-following walk up to 8 and its one-element mutations; then histories of signed delete claims: one, two and three delete claims on one share, undone in either order (older only / newer only / both), undoers undone, a deleter with two undoers, a deleted target share; after every step all chains up to 2 over everything, all chains up to 3 from every share and all walks are re-requested. servers: serverinit.Load+InstallHandlers of generated high- and low-level configurations (storage x index x auth mode x share prefix x hand-edited prefixes incl. internal ones); every prefix x 9 methods x 9-22 sub-paths without credentials, then without credentials in 17 request shapes (websocket upgrade with absent/empty/wrong authtoken, blank/garbage/empty/wrong Basic, Token, Bearer Authorization, forwarded-for/loopback claims, cookies) x every sub-path (GET) and x every method (first sub-paths), discovery and every fixed /debug endpoint under every shape, GET/HEAD with valid credentials; the shapes are first sent to servers in freshly started child processes (no credential ever presented, auth.Token() never asked for). distinct = distinct (store, request) whose chain starts at a stored share claim, plus distinct (configuration, prefix, method, sub-path, shape)"
 	g := &gen{r: r}
 
 	// the line protocol on junk
